@@ -31,8 +31,21 @@ for line in sys.stdin:
         break
     out = {}
     try:
-        q = np.array([0.1, 0.2, 0.3, 0.4, 0.5])
-        if cmd.get("via") == "sasview":
+        q = np.array([0.1, 0.2, 0.3, 0.4, 0.5, 0.6])
+        if cmd.get("ngauss"):
+            # a load that asks for another integration size (what compare's -ngauss option does)
+            from sasmodels import generate
+            info = core.load_model_info(plugin)
+            generate.set_integration_size(info, int(cmd["ngauss"]))
+            model = core.build_model(info, dtype=cmd["dtype"], platform="dll")
+            I = direct_model.call_kernel(model.make_kernel([q]), {"background": 0.0})
+            out["values"] = [float(v) for v in I]
+        elif cmd.get("via") == "composite":
+            # the plugin as one component of a model expression whose other component is flagged double-only
+            model = core.load_model(plugin + "+hardsphere", dtype=cmd["dtype"], platform="dll")
+            I = direct_model.call_kernel(model.make_kernel([q]), {"background": 0.0, "A_scale": 1.0, "B_scale": 0.0})
+            out["values"] = [float(v) for v in I]
+        elif cmd.get("via") == "sasview":
             # the SasView wrapper's own loader (it keeps the compiled model on the class it creates)
             from sasmodels import sasview_model
             Model = sasview_model.load_custom_model(plugin)
@@ -40,7 +53,7 @@ for line in sys.stdin:
             m.setParam("background", 0.0)
             I = m.evalDistribution(q)
             # the parameter default is carried by the class, not by I(q): report it in the last slot as I(q) does
-            out["values"] = [float(v) for v in I[:4]] + [float(I[4])]
+            out["values"] = [float(v) for v in I]
         else:
             model = core.load_model(plugin, dtype=cmd["dtype"], platform="dll")
             kernel = model.make_kernel([q])
